@@ -1,5 +1,6 @@
 import Unsized.MachineNodeMap
 import Unsized.MachineNodeUlist
+import Unsized.MachineNodeUmap
 import Unsized.MachineNodeUget
 import Unsized.MachineRun
 /-!
@@ -16,22 +17,6 @@ def genericOp : Op → Bool
   | .reset => true
   | _ => false
 
-/-- Node kinds all of whose ops are proved to refine the owned model. -/
-def coveredShape : Shape → Bool
-  | .fixed _ => true
-  | .list _ _ => true
-  | .set _ _ => true
-  | .map _ _ _ => true
-  | .str _ => true
-  | .rem => true
-  | .ulist _ => true
-  | .struct _ _ => true
-  | .enum _ _ => true
-  | _ => false
-
-/-- The (node kind, op) pairs covered by `node_refines`. -/
-def Supported (t : Shape) (op : Op) : Bool := coveredShape t || genericOp op
-
 theorem generic_refines {s v p t u m} (F : Focus s v p t u m) (c : Calm m) (op : Op)
     (h : genericOp op = true) : Refines s v p t u m op := by
   cases op <;> simp [genericOp] at h
@@ -39,18 +24,13 @@ theorem generic_refines {s v p t u m} (F : Focus s v p t u m) (c : Calm m) (op :
   · exact replace_refines F c _
   · exact reset_refines F c
 
-/-- **Node-level refinement** for all supported (node kind, op) pairs. -/
-theorem node_refines {s v p t u m} (F : Focus s v p t u m) (c : Calm m) (op : Op)
-    (h : Supported t op = true) : Refines s v p t u m op := by
+/-- **Node-level refinement, every node kind, every op of the op language.** -/
+theorem node_refines {s v p t u m} (F : Focus s v p t u m) (c : Calm m) (op : Op) :
+    Refines s v p t u m op := by
   by_cases hg : genericOp op = true
   · exact generic_refines F c op hg
-  · have hc : coveredShape t = true := by
-      simp only [Supported, Bool.or_eq_true] at h
-      rcases h with h | h
-      · exact h
-      · exact absurd h hg
-    have hv := F.sub.valid
-    cases t <;> simp [coveredShape] at hc <;> cases u <;> simp only [valid, Bool.false_eq_true] at hv
+  · have hv := F.sub.valid
+    cases t <;> cases u <;> simp only [valid, Bool.false_eq_true] at hv
     · exact fixed_refines F c op
     · exact list_refines F c op
     · exact set_refines F c op
@@ -61,9 +41,17 @@ theorem node_refines {s v p t u m} (F : Focus s v p t u m) (c : Calm m) (op : Op
       by_cases hu : ∃ i, op = .uget i
       · obtain ⟨i, rfl⟩ := hu; exact ulist_uget_refines F c i
       · exact ulist_refines F c op (fun i h => hu ⟨i, h⟩)
+    · -- umap
+      by_cases hu : ∃ i, op = .uget i
+      · obtain ⟨i, rfl⟩ := hu; exact umap_uget_refines F c i
+      · exact umap_refines F c op (fun i h => hu ⟨i, h⟩)
     · exact struct_refines F c op
     · exact enum_refines F c op
-
+    · -- unit payload: never an accessor target; every non-generic op line is inapplicable
+      cases op <;> simp [genericOp] at hg <;> (unfold Refines; simp [Spec.applyNode, applyAt])
+    all_goals
+      -- `AccountDiscriminant<T>` (top level only): no op of the op language applies
+      cases op <;> simp [genericOp] at hg <;> (unfold Refines; simp [Spec.applyNode, applyAt])
 
 /-! ## Whole cases: the owned-model state machine and the refinement invariant -/
 
@@ -97,17 +85,16 @@ structure Inv (s : Shape) (vs : VState) (ms : State) : Prop where
   levels : ms.levels = vs.levels
   calm : Calm ms.mem
 
-/-- A line the refinement theorem covers (decidable): a supported (node kind, op) pair; if the model
-succeeds the new value fits below `orig + 10240`; if the model fails it is not with one of the
-known-finding classes (initialiser failing behind a resize, composite op failing half-way). -/
+/-- The side conditions of the refinement theorem on one line (decidable): if the model succeeds the
+new value fits below `orig + 10240` (headroom); if the model fails it is not with one of the two
+registered known-finding classes (an initialiser failing behind the resize: `Err.initFail`; a
+composite op — `Map/Set::insert_all`, `UnsizedString::set` — failing half-way). EVERY op of the op
+language on EVERY node kind is covered. -/
 def cmdOk (s : Shape) (vs : VState) (orig : Nat) : Cmd → Bool
   | .op p o =>
-    (match resolve s vs.val (vs.cur ++ p) with
-     | .ok (t, _) => Supported t o
-     | .error _ => true)
-    && (match Spec.applyOp s vs.val (vs.cur ++ p) o with
-        | .ok (v', _) => decide ((encode s v').length ≤ orig + maxIncrease)
-        | .error e => e != .initFail && !composite o)
+    (match Spec.applyOp s vs.val (vs.cur ++ p) o with
+     | .ok (v', _) => decide ((encode s v').length ≤ orig + maxIncrease)
+     | .error e => e != .initFail && !composite o)
   | _ => true
 
 def CmdOk (s : Shape) (vs : VState) (orig : Nat) (c : Cmd) : Prop := cmdOk s vs orig c = true
@@ -141,10 +128,10 @@ theorem step_inv (s : Shape) (vs : VState) (ms : State) (inv : Inv s vs ms) (cmd
     exact ⟨by first | trivial | rfl, ⟨inv.good, inv.bytes, rfl, inv.calm⟩, by first | trivial | rfl⟩
   | op p o =>
     simp only [step, stepV, hcur]
-    simp only [CmdOk, cmdOk, Bool.and_eq_true] at hok
-    obtain ⟨hsup, hres⟩ := hok
+    simp only [CmdOk, cmdOk] at hok
+    have hres := hok
     have href := applyOp_refines s vs.val inv.good ms.mem inv.bytes (vs.cur ++ p) o
-      (fun t u hr => node_refines ⟨inv.good, hr, inv.bytes⟩ inv.calm o (by rw [hr] at hsup; exact hsup))
+      (fun t u hr => node_refines ⟨inv.good, hr, inv.bytes⟩ inv.calm o)
     cases ha : Spec.applyOp s vs.val (vs.cur ++ p) o with
     | ok vr =>
       obtain ⟨v', r⟩ := vr
